@@ -26,6 +26,8 @@ pub const K_EXITER: u8 = 4;
 pub const K_FDCHURN: u8 = 5;
 /// spins in user space with an arbitrary (spec-given) value in rsp
 pub const K_ODDSP: u8 = 6;
+/// keeps mapping, touching and unmapping small regions
+pub const K_MAPCHURN: u8 = 7;
 
 pub fn pat(a: u64, seed: u64) -> u8 {
     let mut x = (a ^ seed).wrapping_mul(0x9E37_79B9_7F4A_7C15);
@@ -100,6 +102,10 @@ pub struct TSpec {
     /// (at most 6 MiB) for argv + environment
     #[serde(default)]
     pub exec_stack_mb: Option<u32>,
+    /// (address, count): 2*count pages of which every other one is read-only, i.e. 2*count lines in
+    /// the memory map
+    #[serde(default)]
+    pub stripes: Option<(u64, u32)>,
 }
 
 fn hex(b: &[u8]) -> String {
@@ -191,6 +197,9 @@ impl Target {
                     s.push_str(&format!("map {} {:x} {} {} file {} {} {} 0 -\n", m.id, m.addr, m.pages, m.prot, hex(path), off_pages, *shared as u8));
                 }
             }
+        }
+        if let Some((a, n)) = spec.stripes {
+            s.push_str(&format!("stripes {a:x} {n}\n"));
         }
         for a in &spec.copycode {
             s.push_str(&format!("copycode {a:x}\n"));
